@@ -66,6 +66,8 @@ class VersionVal(Native):
 
 
 class _VersionMatches(Native):
+    pure = True
+
     def call(self, I, args, kwargs):
         v = args[0]
         mn = args[1] if len(args) > 1 else kwargs.get('min_version')
@@ -141,6 +143,8 @@ class EnvironStub(Native):
 
 
 class _EnvironGet(Native):
+    pure = False
+
     def call(self, I, args, kwargs):
         env, key = args[0], args[1]
         default = args[2] if len(args) > 2 else None
@@ -156,7 +160,7 @@ class _EnvironGet(Native):
 
 class ResponseStub(Native):
     def __init__(self):
-        self.fields = {'status': None, 'body': None, 'content_type': None,
+        self.fields = {'status': 200, 'body': None, 'content_type': None,
                        'location': None, 'last_modified': None,
                        'cache_control': None}
         self.headers = VDict()
